@@ -1,9 +1,53 @@
 PROPERTY = "C07"
 LEVEL = "proof"
-FUNCTIONS = []
-TRUSTED = []
-ASSUMPTIONS = []
-EXPLANATION = ""
+FUNCTIONS = [
+    # lib/tar
+    "read_octal", "read_binary", "read_number", "tar_compute_checksum",
+    "is_checksum_valid", "check_version", "decode_header", "read_header",
+    "record_to_memory", "read_pax_header", "find_handler", "apply_handler",
+    "pax_uid/gid/size/mtime/rsize/path/slink", "pax_xattr_schily",
+    "pax_sparse_map", "pax_xattr_libarchive", "urldecode",
+    "parse (read_sparse_map_old.c)", "read_gnu_old_sparse",
+    "decode (read_sparse_map_new.c)", "read_gnu_new_sparse",
+    "it_next", "strm_get_buffered_data", "strm_advance_buffer",
+    "is_sparse_region", "drop_parent", "tar_probe",
+    # lib/util
+    "parse (parse_int.c)", "parse_uint", "parse_uint_oct", "parse_int",
+    "hex_decode", "base64_decode", "split_line", "append_arg",
+    "istream_get_line", "ltrim", "rtrim", "trim",
+    # gensquashfs
+    "handle_line", "add_generic", "add_device", "add_file",
+    "split_line_remove_front", "decode_priority", "decode_filename",
+    "decode_flags",
+    # lib/fstree
+    "resolve_link",
+]
+TRUSTED = [
+    "CBMC library models of memcmp/memset/memmove/strlen/strcmp/strncmp/strchr/strcpy/strdup/malloc/calloc/free/fputs/perror/fprintf",
+    "ctype.h: compiled with -D__NO_CTYPE so that isspace/isdigit/isxdigit/isupper/islower are CBMC's function models (C locale) instead of glibc's table macros",
+    "harness models of strnlen/strndup (their definitions) and of glibc's gnu_dev_major/minor/makedev encoding",
+    "strtol contract (pax_loop): consumes any prefix of the NUL-terminated string, returns any value - a superset of the C standard behaviour",
+    "sqfs_istream_t contract: sqfs_istream_read returns <0, or the number of bytes stored (= size, or fewer at end of stream); get_buffered_data returns <0, >0 (EOF) or 0 with a window of at least one byte; sqfs_istream_skip any result",
+    "realloc contract in get_line: NULL or a fresh block of exactly the requested size holding the old prefix (size made concrete per case)",
+    "sqfs_xattr_create: libsquashfs block layout key NUL value NUL in one allocation; sqfs_dir_entry_create, alloc_flex: NULL or a fresh zeroed object",
+    "contracts of fstree_get_node_by_path (a function of the path: some node of the universe or NULL), fstree_add_generic, glob_files, canonicalize_name (proved in C18: 0/-1, never grows), fnmatch, clear_header",
+    "inter-harness contracts used as stubs and discharged by their own harness in this property: read_number (number), tar_compute_checksum (checksum), record_to_memory (record_to_memory), read_pax_header (pax_loop), decode (decode_safety + decode_spec), find_handler/apply_handler (pax_apply), parse_int/parse_uint (parse_int), base64_decode (base64), hex_decode (hex_decode), split_line (split_line)",
+]
+ASSUMPTIONS = [
+    "whole-program composition (tar2sqfs/gensquashfs main, option parsing, the decompressor libraries, glob.c, filemap_xattr.c) is not covered; 'no output file on failure' is C13.cleanup.unlinks",
+    "termination is proved per loop (decreases clauses / complete unwinding) or bounded; wall-clock time is not a notion here",
+    "new_sparse: decode() is replaced by its contract, stated over the ghost 'digit run length at this stream position'; the contract's memory-safety half is proved unbounded (decode_safety), its functional half (result determined by the digit run, rescan consistency) only bounded (decode_spec, all strings <= 8 bytes quick / 10 thorough). A direct quantified loop invariant for decode exhausted SAT (>14 GB) and z3 (>5 min)",
+    "new_sparse: calloc/free_sparse_list are abstracted by one summary node (the function never reads a node field); list shape of the other sparse parsers is checked with the real allocator, bounded",
+    "bounded harnesses (labels): read_header <= 2/3 header records per call, pax_loop records <= 16/24 bytes, pax_apply/pax_xattr/pax_sparse_map small values, old_sparse <= 1/2 extension records, split_line <= 4/6 bytes, get_line <= 2 windows of <= 3 bytes, iter_next <= 2/3 headers, iter_strm sparse maps <= 2/3 entries, handle_line <= 9 tokens, sort_decode lines <= 5/8 bytes, hardlink graphs <= 3/4 nodes, decode_spec <= 8/10 bytes",
+    "read_header/pax harnesses run without --conversion-check: the flagged conversions are the intended `-1 -> SIZE_MAX` length idiom and the defined unsigned narrowing of devmajor/devminor in makedev(); signed overflow stays checked (it found the mtime negation defect)",
+    "record_to_memory's result is modelled by an 8-byte string in read_header (callers there treat it as opaque; symbolic 64 KiB allocations exhaust the solver); record_to_memory itself is proved for every size 1..65536",
+    "observations, not obligations: parse_uint_oct(\"8\", diff != NULL) succeeds with value 0 and diff 0; the tar file stream answers want == 0 with an empty window (never requested by its users); a sparse data entry that extends past the declared real size is served in full (the file gets longer)",
+]
+EXPLANATION = ("every parser on the untrusted-input path is verified function by function on fully symbolic bytes: "
+               "number/checksum/header decoders, record_to_memory, parse_int, hex/base64 decoders and the GNU 1.0 sparse "
+               "map reader are proved for all inputs (loop contracts or loops unwound to format constants); the "
+               "list-building parsers (PAX, old sparse, split_line, get_line, pack/sort file lines) and resolve_link are "
+               "bounded symbolic checks with the bound in the label")
 
 CT = {"__NO_CTYPE": None}   # ctype.h as functions (CBMC models), not glibc table macros
 
@@ -55,7 +99,7 @@ HARNESSES = [
          cases=[dict(id="separate", tier="quick"),
                 dict(id="inplace", defines={"INPLACE": 1, "__NO_CTYPE": None}, tier="quick")]),
     dict(name="split_line", file="split_line.c", label="bounded(len<=4)",
-         malloc_fail=True, flags=["--memory-leak-check"], timeout=1500, weight=4,
+         malloc_fail=True, flags=["--memory-leak-check"], timeout=1500, weight=8,
          cases=[dict(id="len%d" % n, defines={"LEN": n}, unwind=n + 3, tier="quick")
                 for n in (1, 2, 3, 4)] +
                [dict(id="len%d" % n, defines={"LEN": n}, unwind=n + 3, tier="thorough",
@@ -128,12 +172,14 @@ HARNESSES = [
                 for n in (0, 4, 5, 6, 8)] +
                [dict(id="args%d" % n, defines={"NARGS": n, "__NO_CTYPE": None}, tier="thorough")
                 for n in (1, 7, 9)]),
-    dict(name="sort_decode", file="sort_decode.c", label="bounded(line <= 5 bytes)", defines=CT,
+    dict(name="sort_decode", file="sort_decode.c", label="bounded(line <= 5 bytes)", defines=CT, weight=8,
          include_dirs=["bin/gensquashfs/src"], malloc_fail=True, flags=["--memory-leak-check"],
          timeout=900, fp={"*": "env_never"},
          cases=[dict(id="%s_len%d" % (nm, n), defines={"PART": part, "LEN": n, "__NO_CTYPE": None},
                      unwind=max(n + 3, 17 if part == 2 else 0), tier="quick")
-                for part, nm in ((0, "priority"), (1, "filename"), (2, "flags")) for n in (3, 5)] +
+                for part, nm in ((0, "priority"), (1, "filename"), (2, "flags")) for n in (3, 5)
+                if not (part == 2 and n == 3)] +
+               [dict(id="flags_len3", defines={"PART": 2, "LEN": 3, "__NO_CTYPE": None}, unwind=17, tier="thorough")] +
                [dict(id="%s_len%d" % (nm, 8), defines={"PART": part, "LEN": 8, "__NO_CTYPE": None},
                      unwind=max(11, 17 if part == 2 else 0), tier="thorough", label="bounded(line <= 8 bytes)")
                 for part, nm in ((0, "priority"), (1, "filename"))]),
